@@ -881,6 +881,13 @@ class _FunctionPass:
                     e1[key] = frozenset({"y"})
                 elif isinstance(t0.ops[0], ast.Eq):
                     e2[key] = frozenset({"y"})
+                    # X.format == 'bsr': on that branch X is in none of the
+                    # *other* formats, so X.tocsr() / tocsc() / tocoo()
+                    # builds a new matrix there
+                    for other in ("csr", "csc", "coo"):
+                        if other != t0.comparators[0].value:
+                            e1[f"#notfmt:{t0.left.value.id}:{other}"] = \
+                                frozenset({"y"})
             # not isspmatrix_csr(X) / isspmatrix_csr(X)
             neg, t1 = False, t0
             if isinstance(t1, ast.UnaryOp) and isinstance(t1.op, ast.Not):
